@@ -4,6 +4,15 @@ import vlib
 SUB = "c14"
 MODULES = ["Mtv.Props.C14"]
 THEOREMS = [
+    "Mtv.Tlgen.parse_render",
+    "Mtv.Tlgen.parse_document",
+    "Mtv.Tlgen.parse_structure",
+    "Mtv.Tlgen.parse_definition",
+    "Mtv.Tlgen.cursor_index_arithmetic",
+    "Mtv.Tlgen.classify_spec",
+    "Mtv.Tlgen.classify_groups",
+    "Mtv.Tlgen.ctor_name_rule",
+    "Mtv.Tlgen.emit_ids",
 ]
 RULE = ("operations: real tlparser.ParseSchema vs the Lean model on PRNG-generated schemas in varying layouts (enums, "
         "single/multi-constructor types, constructor/type name clashes, every primitive, flags on bits 0..31 and shared "
